@@ -1134,7 +1134,9 @@ impl<'a, 'b, W: Write> Serializer for &'a mut YamlSerializer<'b, W> {
                 v.chars().any(|c| c.is_control() && c != '\n' && c != '\t');
 
             // If N > 9, YAML parsers reject it. Fall back to quoting.
-            if has_unrepresentable_char || (needs_indicator && indent_n > 9) {
+            // The same goes for a block-string wrapper inside a flow collection, where block
+            // scalars do not exist.
+            if self.in_flow > 0 || has_unrepresentable_char || (needs_indicator && indent_n > 9) {
                 // Reset state and fall through to quoted string handling
                 self.pending_str_style = None;
                 self.pending_str_from_auto = false;
